@@ -34,11 +34,11 @@ def main():
                 chk.machinery(cfg + ": TLC failed\n" + res["output"][-1500:])
     rng = random.Random(chk.seed * 6007 + 24)
     sw = c11.Sweep(mpmath, rng.randint(0, 10 ** 9))
-    B1 = chk.pick(1200000, 3000000)
+    B1 = chk.pick(1200000, 1500000)
     sw.inj.budget = B1
     sw.alarm_s = chk.pick(25, 40)
     sw.nvariants = 0
-    blocks = c11.select_blocks(chk, mpmath, chk.pick(0.15, 0.3))
+    blocks = c11.select_blocks(chk, mpmath, chk.pick(0.15, 0.2))
     CALCULUS = {"quad", "quadgl", "quadts", "quadosc", "quadsubdiv", "nsum", "nprod", "sumem", "sumap", "limit", "diff", "diffs", "diffs_prod", "diffs_exp", "taylor", "pade",
                 "findroot", "polyroots", "odefun", "chebyfit", "fourier", "invertlaplace", "invlaptalbot", "invlapstehfest", "invlapdehoog", "pslq", "findpoly", "identify",
                 "hyper2d", "appellf1", "appellf2", "appellf3", "appellf4", "richardson", "shanks", "levin", "cohen_alt", "differint", "difference", "eig", "eigh", "svd", "expm", "logm",
@@ -68,12 +68,12 @@ def main():
                 out.append(("direct/psi", ["psi(%d, %s)" % (m, z)]))
             out.append(("direct/digamma", ["digamma(%s)" % z]))
             out.append(("direct/harmonic", ["harmonic(%s)" % z]))
-        for k in range(chk.pick(45, 250)):
+        for k in range(chk.pick(45, 120)):
             f = rng.choice(fams[:3]) if rng.random() < 0.35 else rng.choice(fams)
             src = f()
             out.append(("direct/%s" % src.split("(")[0], [src]))
         return out
-    DIRECT_PRECS = chk.pick([53, 400, 1000], [53, 400, 1000, 3000])
+    DIRECT_PRECS = chk.pick([53, 400, 1000], [53, 400, 1000, 1500])
 
     def exit_event(evs):
         return [e for e in evs if e["ev"] in ("return", "raise", "abandon")][-1]
@@ -88,7 +88,7 @@ def main():
         meta[eid] = dict(info, exit=exit_, exc=exc, work=work)
     try:
         for name, stmts in blocks + direct_blocks():
-            for P in (DIRECT_PRECS if name.startswith("direct/") else chk.pick([53, 400], [53, 400, 1000])):
+            for P in (DIRECT_PRECS if name.startswith("direct/") else chk.pick([53, 400], [53, 400])):
                 # the numerical-calculus routines and integer sequences are exercised at the documented scale only: at a
                 # raised precision their documented examples are legitimately heavy (no verdict about termination possible)
                 if P > 53 and (name in CALCULUS or any(any(cn + "(" in s for cn in CALCULUS) for s in stmts)):
@@ -117,7 +117,7 @@ def main():
                 mp.prec = 53
         # second chance with an 8x budget for the overruns (legitimately heavy evaluations)
         sw.inj.budget = 8 * B1
-        sw.alarm_s = chk.pick(120, 200)
+        sw.alarm_s = chk.pick(120, 150)
         for code, mode, ns, info in overruns:
             mp.prec = info["P"]
             sw.rec.events = []
